@@ -18,6 +18,13 @@ type unsupported struct{ what string }
 type pathEnd struct {
 	kind string // "dead", "panic", "unsupported", "unwind"
 	msg  string
+	val  value // kind "panic": what recover() returns (the argument of panic(x); an opaque runtime error otherwise)
+}
+
+// inFlight is a Go panic travelling up the interpreted stack (deferred functions run; one of them may recover it).
+type inFlight struct {
+	pe        pathEnd
+	recovered bool
 }
 
 type PassPath struct {
@@ -75,6 +82,7 @@ type Engine struct {
 }
 
 type State struct {
+	panics  []*inFlight // Go panics in flight (innermost last)
 	e       *Engine
 	solver  *Solver
 	base    bool
@@ -487,10 +495,57 @@ func (st *State) callFunction(caller *frame, fn *ssa.Function, args []value, cc 
 		fr.env[l] = new(value)
 	}
 	fr.block = fn.Blocks[0]
+	st.runFrame(fr)
+	return fr.result
+}
+
+// runFrame executes the frame. A Go panic (path end of kind "panic") raised below it runs the frame's deferred calls, as
+// the Go runtime does; if one of them calls recover() the panic ends there and the function returns through its
+// recover block (named results as they are), otherwise the panic goes on to the caller. Unrecovered at the top of the
+// harness it is a violation, as before.
+func (st *State) runFrame(fr *frame) {
+	defer func() {
+		r := recover()
+		if r == nil {
+			return
+		}
+		pe, ok := r.(pathEnd)
+		if !ok || pe.kind != "panic" || len(fr.defers) == 0 {
+			panic(r)
+		}
+		fl := &inFlight{pe: pe}
+		st.panics = append(st.panics, fl)
+		func() {
+			defer func() { st.panics = st.panics[:len(st.panics)-1] }()
+			for len(fr.defers) > 0 {
+				d := fr.defers[len(fr.defers)-1]
+				fr.defers = fr.defers[:len(fr.defers)-1]
+				d() // (a panic inside a deferred call replaces the one in flight: it simply propagates from here)
+			}
+		}()
+		if !fl.recovered {
+			panic(r)
+		}
+		// recovered: continue at the function's recover block (returns the named results), or return zero values
+		fr.result = nil
+		if rb := fr.fn.Recover; rb != nil {
+			fr.prevBlock, fr.block = nil, rb
+			for fr.block != nil {
+				fr.runBlock()
+			}
+		} else if res := fr.fn.Signature.Results(); res.Len() == 1 {
+			fr.result = zero(res.At(0).Type())
+		} else if res.Len() > 1 {
+			var t tuple
+			for i := 0; i < res.Len(); i++ {
+				t = append(t, zero(res.At(i).Type()))
+			}
+			fr.result = t
+		}
+	}()
 	for fr.block != nil {
 		fr.runBlock()
 	}
-	return fr.result
 }
 
 // closures pass their env after the params in args (see call())
@@ -585,7 +640,7 @@ func (fr *frame) visit(in ssa.Instruction) (jumped bool) {
 		}
 		fr.defers = nil
 	case *ssa.Panic:
-		panic(pathEnd{kind: "panic", msg: "explicit panic in " + fr.fn.String() + " @ " + st.e.prog.Fset.Position(in.Pos()).String()})
+		panic(pathEnd{kind: "panic", msg: "explicit panic in " + fr.fn.String() + " @ " + st.e.prog.Fset.Position(in.Pos()).String(), val: fr.get(in.X)})
 	case *ssa.Store:
 		p := fr.get(in.Addr).(*value)
 		if p == nil {
@@ -1309,6 +1364,18 @@ func (fr *frame) builtin(b *ssa.Builtin, args []value, cc *ssa.CallCommon) value
 		}
 	case "print", "println":
 		return nil
+	case "recover":
+		// (Go only honours recover() called directly by a deferred function; calls from deeper frames are not
+		// distinguished here)
+		if n := len(fr.st.panics); n > 0 && !fr.st.panics[n-1].recovered {
+			fl := fr.st.panics[n-1]
+			fl.recovered = true
+			if fl.pe.val != nil {
+				return fl.pe.val
+			}
+			return iface{t: errObjType, v: &opaque{tag: "runtime-error: " + fl.pe.msg}}
+		}
+		return iface{}
 	case "min", "max":
 	}
 	panic(pathEnd{kind: "unsupported", msg: fmt.Sprintf("builtin %s on %T", b.Name(), args[0])})
